@@ -887,12 +887,81 @@ def canon17(reply):
     return reply
 
 
+def ill_formed_documents(ctx, big):
+    """load-time problems: documents in which ONE numeric text node / attribute is not a number ("zz"), an empty string or a float where an
+    integer is expected. Where strict mode reports an OdxError, non-strict mode must DOWNGRADE the problem — load, or still report an
+    OdxError —, never end in a foreign exception (`UnboundLocalError`, `TypeError`, …), and switching back to strict mode must restore the
+    strict outcome."""
+    import re
+    import warnings
+    import xml.etree.ElementTree as ET
+    from odxgen import gen as G
+    from odxgen import xmlgen
+    from odxtools.database import Database
+    from odxtools.exceptions import OdxError
+    rng = ctx.sub_rng("ill-formed")
+    seen = set()
+
+    def attempt(xml, flag):
+        set_flag(flag)
+        try:
+            with warnings.catch_warnings():
+                warnings.simplefilter("ignore")
+                db = Database()
+                db._process_xml_tree(ET.fromstring(xml))
+                db.refresh()
+            return "loaded"
+        except OdxError:
+            return "odxerror"
+        except Exception as e:  # noqa
+            return "foreign:" + type(e).__name__
+
+    keep = get_flag()
+    try:
+        n_docs = 60 if big else 14
+        for i in range(n_docs):
+            try:
+                c = G.gen_composite(rng, profile=G.QUICK, name="C")
+                xml = xmlgen.to_xml([c])
+            except Exception:  # noqa
+                continue
+            spots = [m for m in re.finditer(r">(-?\d+(?:\.\d+)?)<", xml)]
+            rng.shuffle(spots)
+            for m in spots[:40 if big else 14]:
+                tag = xml[:m.start()].rsplit("<", 1)[-1].split(" ")[0].split(">")[0]
+                for bad in ("zz", "", "1.5x"):
+                    broken = xml[:m.start(1)] + bad + xml[m.end(1):]
+                    s1, l, s2 = attempt(broken, True), attempt(broken, False), attempt(broken, True)
+                    ctx.case(("ill-formed", tag, bad, i, m.start()), nontrivial=(s1 != l))
+                    ctx.histo("family", "ill-formed-document")
+                    ctx.histo("ill-formed strict/lenient", f"{s1.split(':')[0]}/{l.split(':')[0]}")
+                    for item in (
+                            # (a document outside the ODX schema that makes BOTH modes end in a plain ValueError of `int()` is outside the
+                            #  statement: nothing was "reported as an error in strict mode" by the library; counted in the histogram only)
+                            ("load-problem-downgraded", l, f"a problem that strict mode reports as an OdxError — <{tag}> is {bad!r} — makes non-strict "
+                                                           f"loading end in {l} instead of being downgraded") if s1 == "odxerror" and l.startswith("foreign") else None,
+                            ("re-enabling-strict-restores-the-result", s2, f"strict loading after a non-strict attempt gives {s2}, before: {s1}") if s2 != s1 else None):
+                        if item is None:
+                            continue
+                        clause, obs, what = item
+                        key = (clause, tag, obs)
+                        if key in seen:
+                            ctx.count(f"violations_duplicate[{clause}]")
+                            continue
+                        seen.add(key)
+                        ctx.violate(clause, ["ill-formed-document", tag], obs, {"xml": broken[max(0, m.start() - 300):m.end() + 100], "tag": tag, "bad": bad}, what)
+    finally:
+        set_flag(keep)
+
+
 def run(ctx):
     import common
     import malformed as M
     big = ctx.tier == "thorough"
     # (0) table obligation
     check_sites(ctx)
+    # (0') load-time problems are downgraded, never foreign
+    ill_formed_documents(ctx, big)
     # (1) cases
     cases = gen_cases(ctx, big)
     ctx.count("cases", len(cases))
